@@ -664,7 +664,8 @@ fn stack_case(rng: &mut Rng, idx: usize, max_layers: usize) -> StackCase {
         let mut chosen = None;
         for _ in 0..8 {
             let (d, w, _) = walkgen::depth_behaviour(rng, 5);
-            if w.1.map_or(true, |m| m >= prefix_len) {
+            // (Mostly windows that reach the prefix; one in six may end before it.)
+            if w.1.map_or(true, |m| m >= prefix_len) || rng.chance(1, 6) {
                 chosen = Some((d, w));
                 break;
             }
@@ -705,25 +706,43 @@ fn run_stack(case: &StackCase, layers: &[LayerSpec], root: &Path, base: &Path, g
     let (start, gm) = match glob {
         Some(g) => {
             let (start, _pivot) = g.verif_walk_anchor(base.to_path_buf());
-            let prefix: Vec<String> = rel_of(&start, base)
-                .map(|r| if r.is_empty() { Vec::new() } else { r.split('/').map(|s| s.to_string()).collect() })
-                .unwrap_or_default();
+            let rooted = guarded(|| g.has_root()) == Some(When::Always);
+            let prefix: Vec<String> = if rooted {
+                start
+                    .components()
+                    .filter_map(|c| match c {
+                        std::path::Component::Normal(n) => Some(n.to_string_lossy().to_string()),
+                        _ => None,
+                    })
+                    .collect()
+            }
+            else {
+                rel_of(&start, base)
+                    .map(|r| if r.is_empty() { Vec::new() } else { r.split('/').map(|s| s.to_string()).collect() })
+                    .unwrap_or_default()
+            };
             (
                 start,
                 Some(GlobModel {
                     glob: g,
                     components: compile_components(g),
                     prefix,
+                    rooted,
                 }),
             )
         },
         None => (base.to_path_buf(), None),
     };
     let prefix_len = gm.as_ref().map_or(0, |g| g.prefix.len());
-    if case.window.1.map_or(false, |m| m < prefix_len) {
-        // Listed C15 finding (a maximum smaller than the prefix still yields the prefix
-        // directory): left to C15.
+    if gm.as_ref().map_or(false, |g| g.rooted) && case.window != (0, None) {
+        // Rooted glob walks are only simulated without depth bounds.
         return None;
+    }
+    if case.window.1.map_or(false, |m| m < prefix_len) {
+        // A maximum smaller than the prefix admits nothing at all (repaired by 0234b3a): nothing
+        // is read, fed or yielded.
+        let sim = walksim::simulate(&[], gm.as_ref(), &stack.models, root, case.window);
+        return Some(Ran { obs, calls, sim, start, prefix_len });
     }
     let model = model_walk(&start, follow_of(&case.behaviour));
     let sim = walksim::simulate(&model.entries, gm.as_ref(), &stack.models, root, case.window);
@@ -741,6 +760,16 @@ fn c13(idx: usize, ctx: &Ctx, rpt: &mut Report) {
     case.layers.push(LayerSpec::Filter { seed: 0, mode: 0 });
     let cont = container(ctx, idx);
     let root = cont.join("p").join("q").join("root");
+    // One unbounded glob walk in four is rooted: the same glob behind the escaped absolute path of
+    // the tree root (the glob replaces the base directory).
+    if case.window == (0, None) && rng.chance(1, 4) {
+        if let Some(e) = &case.gexpr {
+            // (Not with `.`/`..` components: they are native path semantics, see C02.)
+            if !e.is_empty() && !e.starts_with('/') && Glob::new(e).map_or(false, |g| !g.has_semantic_literals()) && !e.split('/').any(|c| c == "." || c == "..") {
+                case.gexpr = Some(format!("{}/{}", wax::escape(&root.to_string_lossy()), e));
+            }
+        }
+    }
     ctx.begin(idx, &stack_witness(&case, &case.layers).to_string());
     let glob = match &case.gexpr {
         Some(e) => match Glob::new(e) {
@@ -749,6 +778,9 @@ fn c13(idx: usize, ctx: &Ctx, rpt: &mut Report) {
         },
         None => None,
     };
+    if glob.as_ref().map_or(false, |g| guarded(|| g.has_root()) == Some(When::Always)) {
+        rpt.bucket("walk:rooted-glob");
+    }
     if !case.spec.raw.is_empty() {
         rpt.bucket("trees:with-names-that-are-not-utf8");
     }
